@@ -1,6 +1,7 @@
 package sim
 
 import (
+	"strconv"
 	"bytes"
 	"fmt"
 	"math/big"
@@ -486,7 +487,45 @@ func (g *G) Inbound(label string, o InboundOpts) Inbound {
 		src = g.Domain(label + "/src")
 	}
 	var nonce uint64
-	if o.Nonce != nil {
+	ambiguous := false
+	if o.Nonce == nil && o.Src == nil && !has(o.Break, "P6") && len(m.Used) > 0 && g.Pct(label+"/ambiguous", 4) {
+		// a pair whose decimal digits, written one after the other, read the same as those of a used pair
+		// ((1, 23) and (12, 3)): any key or de-duplication built by plain concatenation confuses the two
+		var us []UsedSpec
+		for u := range m.Used {
+			us = append(us, u)
+		}
+		sort.Slice(us, func(i, j int) bool {
+			if us[i].Domain != us[j].Domain {
+				return us[i].Domain < us[j].Domain
+			}
+			return us[i].Nonce < us[j].Nonce
+		})
+		u := Pick(g, label+"/ambof", us)
+		ds, ns := fmt.Sprint(u.Domain), fmt.Sprint(u.Nonce)
+		s := ds + ns
+		var cands []UsedSpec
+		for k := 1; k < len(s); k++ {
+			if k == len(ds) {
+				continue
+			}
+			d2, err1 := strconv.ParseUint(s[:k], 10, 32)
+			n2, err2 := strconv.ParseUint(s[k:], 10, 64)
+			if err1 == nil && err2 == nil && fmt.Sprint(d2)+fmt.Sprint(n2) == s && !m.Used[UsedSpec{uint32(d2), n2}] {
+				cands = append(cands, UsedSpec{uint32(d2), n2})
+			}
+		}
+		if len(cands) > 0 {
+			c := Pick(g, label+"/ambto", cands)
+			src, nonce, ambiguous = c.Domain, c.Nonce, true
+			if _, ok := m.Msgrs[src]; !ok && o.ToModule == nil {
+				toModule = false
+			}
+		}
+	}
+	if ambiguous {
+		// src and nonce are set
+	} else if o.Nonce != nil {
 		nonce = *o.Nonce
 	} else if has(o.Break, "P6") && len(m.Used) > 0 {
 		var us []UsedSpec
@@ -1071,9 +1110,15 @@ func (g *G) drawGenesis(o GenOpts) *GenSpec {
 		gs.Attesters = append(gs.Attesters, attest.K(k).Spelling(rapid.IntRange(0, 5).Draw(t, "spelling")))
 	}
 	gs.Threshold = uint32(rapid.IntRange(1, n).Draw(t, "threshold"))
-	if o.NoAttesters && rapid.IntRange(0, 9).Draw(t, "noattesters") == 0 {
-		gs.Attesters = nil
-		gs.Threshold = uint32(rapid.IntRange(1, 3).Draw(t, "lonelythreshold"))
+	if o.NoAttesters {
+		switch rapid.IntRange(0, 14).Draw(t, "noattesters") {
+		case 0:
+			gs.Attesters = nil
+			gs.Threshold = uint32(rapid.IntRange(1, 3).Draw(t, "lonelythreshold"))
+		case 1:
+			// fewer attesters than the threshold asks for (validation does not relate the two)
+			gs.Threshold = uint32(len(gs.Attesters) + rapid.IntRange(1, 2).Draw(t, "highthreshold"))
+		}
 	}
 	if o.Decoys && len(gs.Attesters) > 0 && rapid.IntRange(0, 3).Draw(t, "decoys") == 0 {
 		for i, k := 0, rapid.IntRange(1, 2).Draw(t, "ndecoys"); i < k; i++ {
@@ -1095,7 +1140,9 @@ func (g *G) drawGenesis(o GenOpts) *GenSpec {
 	if o.StartNonce != nil {
 		gs.NextNonce = *o.StartNonce
 	} else {
-		gs.NextNonce = rapid.SampledFrom([]uint64{0, 0, 1, 1<<31 - 1, 1<<32 - 2, 1<<32 - 1, 1 << 32, 1<<63 - 2, 1<<63 - 1, 1 << 63, 1<<64 - 1000}).Draw(t, "nextnonce")
+		gs.NextNonce = rapid.SampledFrom([]uint64{0, 0, 0, 1, 1<<31 - 1, 1<<32 - 2, 1<<32 - 1, 1 << 32, 1<<63 - 2, 1<<63 - 1, 1 << 63, 1<<64 - 1000,
+			// where the varint encoding of the stored counter changes length (7 bits per byte)
+			1<<7 - 1, 1 << 7, 1 << 14, 1 << 21, 1 << 28, 1<<35 - 1, 1 << 35, 1<<42 - 1, 1 << 42, 1<<42 + 12345, 1<<49 - 1, 1 << 49, 1 << 56}).Draw(t, "nextnonce")
 	}
 	denom := "uusdc"
 	if o.MixedDenom && rapid.IntRange(0, 4).Draw(t, "mixeddenom") == 0 {
